@@ -109,3 +109,78 @@ class UpdateAt(Kernel):
 
 
 KERNELS = [UpdateAt()]
+
+
+class RavelMultiplier(Kernel):
+    """local region of decomposednamedtensor_from_classical._ravel: the row-major multiplier loop (step 3)"""
+    id = "C14.P.ravel"
+    prop = "C14"
+    file = "einx/_src/adapter/decomposednamedtensor_from_classical.py"
+    module = "einx._src.adapter.decomposednamedtensor_from_classical"
+    qual = "_ravel"
+    describe = ("row-major ravel: after the multiplier loop the k-th coordinate tensor is scaled by suf(k+1) = prod of the lengths of all later target axes "
+                "(so that their sum is the flat index), for every number of target axes; multiplication by 1 is skipped")
+
+    def region(self, fnode):
+        import ast
+        body = fnode.body
+        idx = [i for i, st in enumerate(body) if isinstance(st, ast.Assign) and ast.unparse(st) == "multiplier = 1"]
+        if len(idx) != 1:
+            raise LookupError("anchor `multiplier = 1` not found exactly once in _ravel")
+        i = idx[0]
+        end = [j for j in range(i, len(body)) if isinstance(body[j], ast.Assign) and ast.unparse(body[j]) == "coords = coords2"]
+        if not end:
+            raise LookupError("anchor `coords = coords2` after the multiplier loop not found")
+        return body[i : end[0] + 1]
+
+    def setup(self, eng, bound=None):
+        n = z3.Int("n")
+        c = z3.Array("coord_value", I, I)  # ghost: the integer a coordinate tensor denotes at a fixed (arbitrary) position
+        ax = z3.Array("axes", I, Obj)
+        val = uf("attr_value", Obj, I)
+        suf = z3.Function("suf", I, I)
+        self.n, self.c, self.ax, self.val, self.suf = n, c, ax, val, suf
+        eng.int_attrs = set(eng.int_attrs) | {"value"}
+        j = z3.Int("j")
+        eng.axioms += [suf(n) == 1, z3.ForAll([j], z3.Implies(z3.And(0 <= j, j < n), suf(j) == val(ax[j]) * suf(j + 1)))]
+
+        def c_multiply(e, p, av, kw):
+            return SInt(av[0].t * av[1].t)
+
+        eng.contracts["classical.multiply"] = SContract(c_multiply, "classical.multiply (denoted integer value)")
+
+        def inv(e, p, i):
+            m = p.lookup("multiplier").t
+            c2 = e.as_seq(p.lookup("coords2"), p)
+            t = fresh("t")
+            return z3.And(m == suf(n - i), c2.n == i, z3.ForAll([t], z3.Implies(z3.And(0 <= t, t < i), z3.Select(c2.arr, t) == c[n - i + t] * suf(n - i + t + 1))))
+
+        # the region contains exactly one for-loop (ordinal 0 within the region)
+        eng.invariants[0] = inv
+        env = {"classical": SObj(z3.Const("classical", Obj)), "coords": SSeq(c, n, "int", "list"), "expr_tensor": SSeq(ax, n, "obj", "list")}
+        return env, [n >= 0], {}
+
+    def post(self, eng, out, p):
+        if out is not None and not isinstance(out, Return):
+            return
+        c2 = eng.as_seq(p.lookup("coords"), p)
+        t = fresh("t")
+        eng.oblige("post:coords[k] is scaled by the product of the lengths of all later target axes (row-major)", p,
+                   z3.And(c2.n == self.n, z3.ForAll([t], z3.Implies(z3.And(0 <= t, t < self.n), z3.Select(c2.arr, t) == self.c[t] * self.suf(t + 1)))), "post")
+
+    def twin(self, tier):
+        """native: the real _ravel through the public API is exercised by the corpus; here the row-major formula of numpy is the conformance check of the spec"""
+        import itertools
+        import numpy as np
+        n, fails = 0, []
+        for r in range(1, 5):
+            for shape in itertools.product([1, 2, 3], repeat=r):
+                suf = [int(np.prod(shape[k + 1:])) for k in range(r)]
+                for idx in itertools.product(*[range(s) for s in shape]):
+                    n += 1
+                    if sum(i * s for i, s in zip(idx, suf)) != int(np.ravel_multi_index(idx, shape)):
+                        fails.append({"detail": f"spec suf disagrees with numpy.ravel_multi_index for {idx} in {shape}"})
+        return n, fails[:3]
+
+
+KERNELS.append(RavelMultiplier())
